@@ -33,20 +33,20 @@ import (
 const root = "/verif"
 
 type fuzzTarget struct {
-	Name   string
-	Quick  time.Duration // 0: not run in quick
+	Name     string
+	Quick    time.Duration // 0: not run in quick
 	Thorough time.Duration
 }
 
 type propCfg struct {
-	Test          string // go test function (regexp)
-	ShardsQuick   int
-	ShardsThorough int
-	Race          bool
-	Fuzz          []fuzzTarget
-	Rule          string
-	Assumptions   []string
-	TimeoutQuick  time.Duration
+	Test            string // go test function (regexp)
+	ShardsQuick     int
+	ShardsThorough  int
+	Race            bool
+	Fuzz            []fuzzTarget
+	Rule            string
+	Assumptions     []string
+	TimeoutQuick    time.Duration
 	TimeoutThorough time.Duration
 }
 
@@ -135,6 +135,19 @@ func build(dir string, race bool) (string, error) {
 		out = filepath.Join(dir, "checks.race.test")
 		args = []string{"test", "-c", "-tags", "verif", "-vet=off", "-race", "-o", out}
 	}
+	if alt := os.Getenv("VCHECK_REPO"); alt != "" {
+		// mutation testing on a scratch worktree: same sources, replace directive pointed elsewhere
+		mod, err := os.ReadFile(filepath.Join(root, "go.mod"))
+		if err != nil {
+			return "", err
+		}
+		alt, _ = filepath.Abs(alt)
+		modfile := filepath.Join(dir, "alt.mod")
+		_ = os.WriteFile(modfile, []byte(strings.Replace(string(mod), "=> /repo", "=> "+alt, 1)), 0o644)
+		sum, _ := os.ReadFile(filepath.Join(root, "go.sum"))
+		_ = os.WriteFile(filepath.Join(dir, "alt.sum"), sum, 0o644)
+		args = append(args, "-modfile", modfile)
+	}
 	args = append(args, "./checks")
 	cmd := exec.Command("go", args...)
 	cmd.Dir = root
@@ -148,10 +161,10 @@ func build(dir string, race bool) (string, error) {
 }
 
 type shardResult struct {
-	shard int
-	code  int
-	err   error
-	log   string
+	shard    int
+	code     int
+	err      error
+	log      string
 	timedOut bool
 }
 
@@ -179,18 +192,18 @@ func runBin(ctx context.Context, bin string, args []string, env []string, logPat
 }
 
 type statsFile struct {
-	Prop          string                     `json:"prop"`
-	Shard         int                        `json:"shard"`
-	Evaluations   int64                      `json:"evaluations"`
-	DistinctCount int64                      `json:"distinct_count"`
-	HashCount     int                        `json:"hash_count"`
-	Classes       map[string]int64           `json:"classes"`
-	Known         map[string]int64           `json:"known"`
-	Subs          map[string]*subStats       `json:"subs"`
-	Samples       []sample                   `json:"samples"`
-	Notes         []string                   `json:"notes"`
-	WallS         float64                    `json:"wall_s"`
-	Failed        int                        `json:"failed"`
+	Prop          string               `json:"prop"`
+	Shard         int                  `json:"shard"`
+	Evaluations   int64                `json:"evaluations"`
+	DistinctCount int64                `json:"distinct_count"`
+	HashCount     int                  `json:"hash_count"`
+	Classes       map[string]int64     `json:"classes"`
+	Known         map[string]int64     `json:"known"`
+	Subs          map[string]*subStats `json:"subs"`
+	Samples       []sample             `json:"samples"`
+	Notes         []string             `json:"notes"`
+	WallS         float64              `json:"wall_s"`
+	Failed        int                  `json:"failed"`
 }
 
 type subStats struct {
@@ -211,12 +224,12 @@ func run(prop, tier string) int {
 		fatal2("unknown property %q", prop)
 	}
 	t0 := time.Now()
-	dir := filepath.Join(root, ".build", prop+"-"+tier)
+	dir := filepath.Join(root, ".build", prop+"-"+tier+os.Getenv("VCHECK_TAG"))
 	_ = os.RemoveAll(dir)
 	if err := os.MkdirAll(dir, 0o755); err != nil {
 		fatal2("mkdir: %v", err)
 	}
-	_ = os.MkdirAll(filepath.Join(root, "evidence"), 0o755)
+	_ = os.MkdirAll(evidenceDir(), 0o755)
 	_ = os.RemoveAll(filepath.Join(root, "checks", "testdata", "rapid"))
 
 	bin, err := build(dir, false)
@@ -410,16 +423,16 @@ func run(prop, tier string) int {
 		}
 	}
 	cov := map[string]interface{}{
-		"evaluations":         merged.Evaluations + fuzzExecs,
-		"distinct_nontrivial": distinct,
-		"rule":                cfg.Rule,
-		"samples":             sampleOut,
-		"exhaustive":          exhaustiveAll,
-		"sub_checks":          merged.Subs,
-		"class_histogram":     merged.Classes,
-		"excluded_known":      merged.Known,
-		"shards":              shards,
-		"distinct_by_hash":    len(hashes),
+		"evaluations":              merged.Evaluations + fuzzExecs,
+		"distinct_nontrivial":      distinct,
+		"rule":                     cfg.Rule,
+		"samples":                  sampleOut,
+		"exhaustive":               exhaustiveAll,
+		"sub_checks":               merged.Subs,
+		"class_histogram":          merged.Classes,
+		"excluded_known":           merged.Known,
+		"shards":                   shards,
+		"distinct_by_hash":         len(hashes),
 		"distinct_by_construction": merged.DistinctCount,
 	}
 	if len(fuzzNotes) > 0 {
@@ -450,7 +463,7 @@ func run(prop, tier string) int {
 		ev["inconclusive"] = inconclusive
 	}
 	eb, _ := json.MarshalIndent(ev, "", " ")
-	if err := os.WriteFile(filepath.Join(root, "evidence", prop+".json"), eb, 0o644); err != nil {
+	if err := os.WriteFile(filepath.Join(evidenceDir(), prop+".json"), eb, 0o644); err != nil {
 		fatal2("cannot write evidence: %v", err)
 	}
 
@@ -502,8 +515,24 @@ func readFail(path string) failFile {
 }
 
 // saveReplay copies the minimal failing case into /verif/replays and returns its path.
+// evidenceDir / replayDir: /verif/evidence and /verif/replays, unless a mutation-testing run
+// (VCHECK_REPO set) redirects them so that the clean-tree evidence is not overwritten.
+func evidenceDir() string {
+	if d := os.Getenv("VCHECK_EVIDENCE_DIR"); d != "" {
+		return d
+	}
+	return filepath.Join(root, "evidence")
+}
+
+func replayDir() string {
+	if d := os.Getenv("VCHECK_REPLAY_DIR"); d != "" {
+		return d
+	}
+	return filepath.Join(root, "replays")
+}
+
 func saveReplay(prop, raceLog, failPath string) string {
-	_ = os.MkdirAll(filepath.Join(root, "replays"), 0o755)
+	_ = os.MkdirAll(replayDir(), 0o755)
 	data, err := os.ReadFile(failPath)
 	if err != nil && raceLog != "" {
 		// the race detector halted the process: the script that was running is in current-<shard>.json
@@ -520,7 +549,7 @@ func saveReplay(prop, raceLog, failPath string) string {
 		data, _ = json.MarshalIndent(ff, "", " ")
 	}
 	sum := sha256.Sum256(data)
-	out := filepath.Join(root, "replays", prop+"-"+hex.EncodeToString(sum[:4])+".json")
+	out := filepath.Join(replayDir(), prop+"-"+hex.EncodeToString(sum[:4])+".json")
 	_ = os.WriteFile(out, data, 0o644)
 	return out
 }
